@@ -20,7 +20,9 @@ RULE = (
     'declaration never assigned) must raise. Non-trivial: >=2 modifications with a unit change, or a falsy final '
     'value (0, false, none). Round 4: values assigned by reference to a helper node (also 0 / false), integers '
     'beyond 2**53, an earlier parse that defined the custom unit differently. Later rounds: definitions through a '
-    'sliced reference followed by plain re-assignments; declared constants. Distinct = distinct rendered text.'
+    'sliced reference followed by plain re-assignments; declared constants. Round 7: assigned values given by '
+    'an expression ("A u - K u") u or a logical expression, in typed and untyped modifications, zero and '
+    'false results included. Distinct = distinct rendered text.'
 )
 ASSUMPTIONS = [
     "integer nodes only receive values whose conversion into the definition unit is an exact integer",
@@ -102,7 +104,12 @@ def target_case(draw):
                      # the assigned value may be given by reference to a helper node that holds it (also 0 / false)
                      "via_ref": kind in ("float", "int", "bool") and val != "none" and draw(st.integers(0, 3)) == 0,
                      "addr": draw(st.sampled_from(["dotted", "indent", "mixed"])),
-                     "noise": draw(st.integers(0, 2)) == 0})
+                     "noise": draw(st.integers(0, 2)) == 0,
+                     # ... or by an expression ("A u - K u") u whose result is the value (zero included); K or None
+                     "by_expr": draw(st.sampled_from(["1", "2.5", "100"] if kind == "float" else ["1", "7", "100"]))
+                     if kind in ("float", "int", "bool") and val != "none" and draw(st.integers(0, 3)) == 0 else None})
+        if mods[-1]["by_expr"] and (mods[-1]["via_ref"] or (kind == "int" and abs(int(mods[-1]["val"])) > 2 ** 52)):
+            mods[-1]["by_expr"] = None
     fail = draw(st.sampled_from([None] * 6 + ["type", "literal", "dimension", "constant", "undeclared"]))
     if fail == "dimension" and not dim:
         fail = "type"
@@ -112,6 +119,7 @@ def target_case(draw):
         nmods = 1
     if fail is None and kind == "int" and dim is None and tkw in ("int64", "uint64") and draw(st.booleans()):
         # the last assignment is an integer a double cannot hold
+        mods[-1]["by_expr"] = None
         mods[-1]["val"] = draw(st.sampled_from(["9007199254740993", "1234567890123456789", "4611686018427387905"]))
         mods[-1]["unit"] = None
     if fail == "undeclared":
@@ -197,6 +205,8 @@ def render_stages(case):
                 if val == "none":
                     val = "3"
         rhs = f"= {val}" + (f" {unit}" if unit else "")
+        if m.get("by_expr") and not (case["fail"] is not None and i == case["fail_at"]):
+            rhs = f'= ("{_expr(case["kind"], m)[0]}")' + (f" {unit}" if unit else "")
         if m.get("via_ref") and not (case["fail"] is not None and i == case["fail_at"]):
             lines.append(f"helper{i} {case['type']} = {val}" + (f" {unit}" if unit else ""))
             rhs = f"= {{?helper{i}}}"
@@ -219,6 +229,18 @@ def render_stages(case):
         cut = marks[k]
         return ["\n".join(lines[:cut]), "\n".join(lines[cut:])]
     return ["\n".join(lines), None]
+
+
+def _expr(kind, m):
+    """-> (expression text without the unit of the modification, value it stands for)"""
+    k, u = m["by_expr"], (f" {m['unit']}" if m["unit"] else "")
+    if kind == "bool":
+        return ("1 == 1" if m["val"] == "true" else "1 == 2"), m["val"] == "true"
+    if kind == "int":
+        a = int(m["val"]) + int(k)
+        return f"{a}{u} - {k}{u}", a - int(k)
+    a = float(repr(float(m["val"]) + float(k)))
+    return f"{a!r}{u} - {k}{u}", a - float(k)
 
 
 def _unit_factor(case, unit):
@@ -250,7 +272,7 @@ def model(case):
     kind = case["kind"]
     cur = None if case["declared"] else _py(kind, case["first"])
     for m in case["mods"]:
-        v = _py(kind, m["val"])
+        v = _expr(kind, m)[1] if m.get("by_expr") else _py(kind, m["val"])
         if v is not None and m["unit"] and case["unit"]:
             f = _unit_factor(case, m["unit"]) / _unit_factor(case, case["unit"])
             v = [x * f for x in v] if isinstance(v, list) else v * f
@@ -364,4 +386,9 @@ def _check(case, v):
         v.label("value_by_reference")
     if case.get("first_by_slice"):
         v.label("definition_by_sliced_reference")
+    for m in case["mods"]:
+        if m.get("by_expr"):
+            v.label("value_by_expression_typed" if m["typed"] else "value_by_expression_untyped")
+            if not _expr(case["kind"], m)[1]:
+                v.label("expression_result_zero_or_false")
     v.info = {"text": text}
